@@ -2,7 +2,10 @@ package checks
 
 import (
 	"crypto/tls"
+	"errors"
 	"fmt"
+	"os"
+	"path/filepath"
 	"strings"
 	"testing"
 	"time"
@@ -148,12 +151,43 @@ func runC09(t *testing.T, tape *sim.Tape, tier string) *Outcome {
 	for i := tape.Draw(4, "nticks"); i > 0; i-- {
 		cl.Ticks = append(cl.Ticks, []time.Duration{50 * time.Millisecond, time.Second, 11 * time.Second, 61 * time.Second, 10 * time.Minute, 3 * time.Hour}[tape.Draw(6, "tick")])
 	}
-	if err := cl.startServer(); err != nil {
+	p := wl.GetPKI()
+	// one run in six: a configuration history. The server is configured from files and first runs with another CA
+	// in its CA file; then the CA file is replaced in place (same path), set again and the server restarted. The
+	// configured CA of the scenario is the one set last
+	rotated := tape.Draw(6, "ca-rotation") == 5
+	if rotated {
+		cf, kf, _ := pemFiles()
+		caf := filepath.Join(filepath.Dir(cf), "ca-rotating.pem")
+		werr := os.WriteFile(caf, p.ForeignCA.CertPEM, 0o600)
+		cl.Srv.ServerCert, cl.Srv.ServerKey, cl.Srv.CACerts = nil, nil, nil
+		if err := errors.Join(werr, cl.Srv.SetTLSCertFile(cf), cl.Srv.SetTLSKeyFile(kf), cl.Srv.SetTLSCaCertFile(caf)); err != nil {
+			o.violate("harness:pem-files", "%v", err)
+			cl.finish()
+			return o
+		}
+		if err := cl.startServer(); err != nil {
+			o.violate("harness:start", "Start (former CA) failed: %v", err)
+			cl.finish()
+			return o
+		}
+		werr = os.WriteFile(caf, p.CA.CertPEM, 0o600)
+		if err := errors.Join(werr, cl.Srv.SetTLSCaCertFile(caf)); err != nil {
+			o.violate("harness:pem-files", "%v", err)
+			cl.finish()
+			return o
+		}
+		if err := cl.lifecycleNow("Restart"); err != nil {
+			o.violate("harness:restart", "Restart after the CA rotation failed: %v", err)
+			cl.finish()
+			return o
+		}
+		o.stat("runs_after_ca_rotation_and_restart", 1)
+	} else if err := cl.startServer(); err != nil {
 		o.violate("harness:start", "Start failed: %v", err)
 		cl.finish()
 		return o
 	}
-	p := wl.GetPKI()
 	tlsAddr, plainAddr := addrOf(tlsPort), addrOf(plainPort)
 	maxVer := func() uint16 {
 		if tape.Draw(2, "tls12") == 1 {
@@ -307,6 +341,9 @@ func runC09(t *testing.T, tape *sim.Tape, tier string) *Outcome {
 		o.violate("harness:budget", "step budget exhausted in %s", sc)
 	}
 	where := fmt.Sprintf("%s (faulty client x%d)", sc.String(), repeat)
+	if rotated {
+		where += " after a CA rotation and Restart"
+	}
 	// 1. the gate: commands only for admitted identities
 	if len(o.Viol) == 0 {
 		if sc.admitted() {
@@ -414,7 +451,7 @@ func init() {
 	register(&Check{
 		ID: "C09", Bubble: true, Run: runC09,
 		Runs:   map[string]int{"quick": 20 * n, "thorough": 1500 * n},
-		Rule:   fmt.Sprintf("the scenario space {no rule, common-name rule, rule+password} x {no certificate, self-signed, foreign CA, expired, right CA wrong name (half of them a near miss of the rule's name), right CA wrong common name with the rule's name among the DNS alternative names, right name only on an intermediate, right CA right name, plain-text bytes, garbage; abort after ClientHello; stalled handshake with and without a valid certificate} x {before, between, after well-behaved clients} = %d scenarios is enumerated completely (run index mod %d); per scenario the schedule (accept loop vs. handshake records vs. other clients), record chunking and TLS 1.2/1.3 are sampled; one run in sixteen adds a crowd of 130..250 connections that stay silent on the TLS port; a third of the runs repeat the scenario client 2..12 times, half of those one after the other with a shared TLS session cache (resumed sessions); with rule+password every TLS client first sends a command before AUTH, which must not reach the handler; distinct = distinct (scenario, event-log hash) pairs", n, n),
+		Rule:   fmt.Sprintf("the scenario space {no rule, common-name rule, rule+password} x {no certificate, self-signed, foreign CA, expired, right CA wrong name (half of them a near miss of the rule's name), right CA wrong common name with the rule's name among the DNS alternative names, right name only on an intermediate, right CA right name, plain-text bytes, garbage; abort after ClientHello; stalled handshake with and without a valid certificate} x {before, between, after well-behaved clients} = %d scenarios is enumerated completely (run index mod %d); per scenario the schedule (accept loop vs. handshake records vs. other clients), record chunking and TLS 1.2/1.3 are sampled; one run in sixteen adds a crowd of 130..250 connections that stay silent on the TLS port; a third of the runs repeat the scenario client 2..12 times, half of those one after the other with a shared TLS session cache (resumed sessions); with rule+password every TLS client first sends a command before AUTH, which must not reach the handler; one run in six starts from a configuration history (files; former CA; CA file replaced in place and set again; Restart); distinct = distinct (scenario, event-log hash) pairs", n, n),
 		Real:   []string{"redis.Server TLS accept loop and handshake, NewTLSConfigFrom, auth.CertificateAuthenticator, auth.AuthManager, crypto/tls (server and clients), crypto/x509 verification against the simulated clock"},
 		Stub:   []string{"network: simulated", "certificates: deterministic Ed25519 PKI valid relative to the bubble epoch", "handler: recording double"},
 		Assume: []string{"a plain client counts as served when it gets any reply to PING (with rule+password it cannot authenticate on the plain port)"},
